@@ -873,6 +873,23 @@ fn get_meta_info(
         None,
     )?;
 
+    if info.enabled == Some(false)
+        && [
+            info.forward,
+            info.owned,
+            info.ref_,
+            info.ref_mut,
+            info.source,
+            info.backtrace,
+        ]
+        .contains(&Some(true))
+    {
+        return Err(Error::new(
+            list.span(),
+            "`ignore` cannot be combined with other parameters in the same attribute",
+        ));
+    }
+
     Ok(info)
 }
 
